@@ -182,8 +182,8 @@ def main(chk: core.Check) -> int:
         chk.prove()
     quick = chk.tier == "quick"
     try:
-        correspond(chk, n_hist=100 if quick else 1000, n_ops=(5, 60) if quick else (5, 300),
-                   cfgs=fleet.QUICK if quick else fleet.THOROUGH, dump_p=0.35 if quick else 0.5)
+        correspond(chk, n_hist=100 if quick else 500, n_ops=(5, 60) if quick else (5, 200),
+                   cfgs=fleet.QUICK if quick else fleet.THOROUGH, dump_p=0.35 if quick else 0.4)
     except core.DriverBroken as e:
         chk.broke("correspondence", {"driver": str(e)[:800]})
     chk.assumptions += [
